@@ -1539,12 +1539,15 @@ fn cast_num(
         (true, false) => {
             // float to int
 
-            // cranelift can only convert floats to i32 or i64, so we do that first,
-            // then cast the i32 or i64 to the actual one we want
-            let int_to = match cast_from.bit_width() {
-                32 => types::I32,
-                64 => types::I64,
-                _ => unreachable!(),
+            // cranelift can convert either float type to i32 or i64, so we convert to the
+            // smallest of those that can hold the target type,
+            // then cast that i32 or i64 to the actual one we want
+            //
+            // todo: values outside of the i64 / u64 range are clamped when converting to 128 bits
+            let int_to = if cast_to.bit_width() <= 32 {
+                types::I32
+            } else {
+                types::I64
             };
 
             let first_cast = if cast_to.signed {
@@ -1554,7 +1557,7 @@ fn cast_num(
             };
 
             // now we can convert the `first_cast` int value to the actual int type we want
-            match cast_from.bit_width().cmp(&cast_to.bit_width()) {
+            match (int_to.bits() as u8).cmp(&cast_to.bit_width()) {
                 std::cmp::Ordering::Less if cast_to.signed => {
                     builder.ins().sextend(cast_to.ty, first_cast)
                 }
@@ -1566,20 +1569,15 @@ fn cast_num(
         (false, true) => {
             // int to float
 
-            // first we have to convert the int to an int that can converted to float
-            let int_to = match cast_to.bit_width() {
-                32 => types::I32,
-                64 => types::I64,
-                _ => unreachable!(),
-            };
-
-            let first_cast = match cast_from.bit_width().cmp(&cast_to.bit_width()) {
-                std::cmp::Ordering::Less if cast_from.signed && cast_to.signed => {
-                    builder.ins().sextend(int_to, val)
-                }
-                std::cmp::Ordering::Less => builder.ins().uextend(int_to, val),
-                std::cmp::Ordering::Equal => val,
-                std::cmp::Ordering::Greater => builder.ins().ireduce(int_to, val),
+            // cranelift can convert an i32 or an i64 to either float type.
+            // smaller ints are extended first (according to their own signedness)
+            //
+            // todo: 128 bit ints are truncated to 64 bits
+            let first_cast = match cast_from.bit_width() {
+                8 | 16 if cast_from.signed => builder.ins().sextend(types::I32, val),
+                8 | 16 => builder.ins().uextend(types::I32, val),
+                32 | 64 => val,
+                _ => builder.ins().ireduce(types::I64, val),
             };
 
             // now we can convert that 32 or 64 bit int into a 32 or 64 bit float
@@ -1591,8 +1589,10 @@ fn cast_num(
         }
         (false, false) => {
             // int to int
+            //
+            // whether the value is sign extended or zero extended depends on the type it has now
             match cast_from.bit_width().cmp(&cast_to.bit_width()) {
-                std::cmp::Ordering::Less if cast_from.signed && cast_to.signed => {
+                std::cmp::Ordering::Less if cast_from.signed => {
                     builder.ins().sextend(cast_to.ty, val)
                 }
                 std::cmp::Ordering::Less => builder.ins().uextend(cast_to.ty, val),
